@@ -47,6 +47,14 @@ class ExprMixin:
         return ("fresh:%s:%d:%d%s%s" % (frame.qname, getattr(node, "lineno", 0), getattr(node, "col_offset", 0),
                                          ("#" + tag) if tag else "", frame.callsite_key), ())
 
+    def truth(self, expr, val, st, frame):
+        """record that the VALUE of `expr` itself (a bare name / attribute, possibly under `not`) is used as a condition:
+        a truthiness test - for rules that must tell `if x:` from `if x is not None:`"""
+        while isinstance(expr, ast.UnaryOp) and isinstance(expr.op, ast.Not):
+            expr = expr.operand
+        if isinstance(expr, (ast.Name, ast.Attribute)) and val is not None:
+            self.ev(frame, st, "truth", expr, value=val)
+
     def ev(self, frame, st, kind, node, **kw) -> Event:
         e = Event(kind=kind, site=frame.site(node), node=node, func=frame.func, recv_cls=frame.recv_cls,
                   facts=st.facts, ctrl=st.ctrl, xctrl=st.xctrl, **kw)
@@ -241,6 +249,7 @@ class ExprMixin:
             a = self.eval(v, sub, frame)
             vals.append(a)
             if i < len(n.values) - 1:
+                self.truth(v, self._bare_value(v, a, sub, frame), sub, frame)
                 self.narrow(v, isinstance(n.op, ast.And), sub, frame)
                 tf, ff = self.cond_facts(v)
                 sub.facts = sub.facts | (tf if isinstance(n.op, ast.And) else ff)
@@ -265,6 +274,17 @@ class ExprMixin:
         if any(v.has_const() and not v.const for v in vals):
             return replace(out, const=False, types=frozenset({"bool"}))
         return replace(out, const=NOCONST)
+
+    def _bare_value(self, expr, val, st, frame):
+        """the value whose truthiness `expr` tests: the operand under any number of `not`s"""
+        if isinstance(expr, ast.UnaryOp) and isinstance(expr.op, ast.Not):
+            inner = expr
+            while isinstance(inner, ast.UnaryOp) and isinstance(inner.op, ast.Not):
+                inner = inner.operand
+            if isinstance(inner, ast.Name):
+                return st.env.get(inner.id)
+            return None
+        return val
 
     def x_UnaryOp(self, n, st, frame):
         a = self.eval(n.operand, st, frame)
@@ -395,6 +415,7 @@ class ExprMixin:
 
     def x_IfExp(self, n, st, frame):
         c = self.eval(n.test, st, frame)
+        self.truth(n.test, self._bare_value(n.test, c, st, frame), st, frame)
         if c.has_const():
             return self.eval(n.body if c.const else n.orelse, st, frame).with_deps(c.deps)
         s1 = st.copy()
